@@ -48,7 +48,7 @@ def main(prop, path):
             with tlcrun.Scratch() as d:
                 r = check_c15reload._scenario(rep["seed"], d)
                 v, st = tlcrun.monitor_traces([r["trace"]], d, shards=1)
-            bad = [b for b in (v[0] or {"bad": []})["bad"] if b[0].startswith("C15") and not b[2]]
+            bad = [b for b in (v[0] or {"bad": []})["bad"] if b[0].startswith(rep.get("prefix", "C15_")) and not b[2]]
             return _generic(bad and str(bad), prop, path)
         if kind.startswith("c20"):
             from harness import check_c20
